@@ -103,7 +103,7 @@ def gen_pairs(ctx):
              ("geos_disk_to_longlat", disk, mk_area(crs_of("longlat", 0.0, 0.0, r), 60.0, 10.0, 300000.0, 21, 31)),
              ("geos_part_to_merc", {"proj": geos, "shape": [30, 25], "extent": [-2000000.0, 1000000.0, 500000.0, 4000000.0]},
               mk_area(crs_of("merc", 0.0, 0.0, r), -5.0, 30.0, 80000.0, 31, 17))]
-    for tag, src, dst in fixed[:ctx.n(1, 4)]:
+    for tag, src, dst in fixed[:ctx.n(2, 4)]:
         pairs.append({"tag": tag, "src": src, "dst": dst, "coef": [1.0, 0.5, -0.25]})
     n = ctx.n(9, 60)
     thin = [(11, 17), (16, 33), (21, 9), (17, 26), (6, 17), (33, 11), (31, 33), (26, 21)]
@@ -181,6 +181,23 @@ def std_bilinear(D, L, P):
     return (1 - u) * (1 - v) * D[la, pa] + (1 - u) * v * D[la, pb] + u * (1 - v) * D[lb, pa] + u * v * D[lb, pb]
 
 
+def geos_rho(pair, L, P):
+    """for a geostationary source: distance of the source position from the disk centre, relative to the limb (1 = limb)"""
+    s = pair["src"]
+    if s["proj"].get("proj") != "geos":
+        return None
+    h, w = s["shape"]
+    x0, y0, x1, y1 = s["extent"]
+    X = x0 + (P + 0.5) * (x1 - x0) / w
+    Y = y1 - (L + 0.5) * (y1 - y0) / h
+    c = PCRS.from_user_input(s["proj"])
+    hh = float(s["proj"]["h"])
+    req, rp = c.ellipsoid.semi_major_metre, c.ellipsoid.semi_minor_metre
+    xa = math.acos(math.sqrt(1 - req ** 2 / (hh + req) ** 2))
+    ya = math.acos(math.sqrt(1 - rp ** 2 / (hh + req) ** 2))
+    return np.sqrt((X / (xa * hh)) ** 2 + (Y / (ya * hh)) ** 2)
+
+
 def block_of(blocks, i, j):
     for b in blocks:
         if b["rows"][0] <= i < b["rows"][1] and b["cols"][0] <= j < b["cols"][1]:
@@ -228,6 +245,7 @@ def check_pair(ctx, pair, obs_by_chunk, cases_out=None):
     L, P = exact_positions(pair)
     inside, outside = classify(L, P, h, w)
     amb = ~(inside | outside)
+    rho = geos_rho(pair, L, P)
     ctx.count("target_pixels_inside", int(inside.sum()))
     ctx.count("target_pixels_outside", int(outside.sum()))
     ctx.count("target_pixels_ambiguous_border", int(amb.sum()))
@@ -339,6 +357,9 @@ def check_pair(ctx, pair, obs_by_chunk, cases_out=None):
                     key = "C09.chunk_invariance.index_on_crop"
                 else:
                     key = "C09.chunk_invariance.interpolation"
+                if key in ("C09.chunk_invariance.crop_raises", "C09.chunk_invariance.crop_too_small", KEY_THIN) and rho is not None and rho[i, j] >= 0.999:
+                    # the slicer clips each target block with the geostationary disk shrunk by 1e-4 rad (property C11)
+                    key = "C09.chunk_invariance.crop_at_geos_limb"
                 if run.get("src_chunks") and not RUNS_differs_without_src_chunks(ref, ob, k):
                     key = "C09.chunk_invariance.source_chunks"
                 if (key, chunk) in reported:
@@ -408,6 +429,8 @@ def chunk_sizes_for(ctx, pair):
     cs = [BIG_CHUNK, 16, 5]
     if ctx.thorough:
         cs += [7, 3, 10]
+    elif pair["tag"] == "geos_disk_to_stere":
+        cs = [BIG_CHUNK, 3]         # small blocks along the limb of the disk (see key crop_at_geos_limb)
     return cs
 
 
